@@ -16,8 +16,12 @@ From Verif Require Import Lib.Base Lib.Sx Lib.Sched Model.RtmpTx Proofs.RtmpTx.
 Import List ListNotations.
 Open Scope Z_scope.
 
-(* GENERIC.  For any skeleton satisfying the decidable discipline tx_safeb (register before the
-   transport write; remove the entry when the write fails; store, lookup+delete and removal each
+(* GENERIC.  For any skeleton satisfying the decidable discipline tx_safeb (register before
+   WriteMessage is entered, i.e. before the FIRST write of the request into the buffered writer --
+   every chunk write is transport-visible, because bufio.Writer hands data to the transport
+   whenever its buffer fills and passes large writes straight through; "before Flush" is NOT
+   enough, see c04_before_flush_refuted; WriteMessage itself only writes chunks, flushes and runs
+   its hook; remove the entry when the write fails; store, lookup+delete and removal each
    inside ltransactions.Lock..Unlock), any request sequence whose response-expecting requests
    carry pairwise different transaction ids, and EVERY interleaving of writer steps, reader steps
    and peers:
@@ -139,7 +143,22 @@ Proof.
   exists sched. split; [reflexivity|]. now apply find_cex_sound.
 Qed.
 
+(* REGISTERING BEFORE THE FLUSH IS NOT ENOUGH.  With the registration inside WriteMessage, after the
+   chunk writes and before the flush, the request can be complete at the peer (a chunk write went
+   through to the transport) while it is still unregistered: rejected by the predicate, and
+   refuted by a computed schedule. *)
+Theorem c04_before_flush_refuted :
+  tx_safeb before_flush_skel = false /\
+  exists sched, find_cex before_flush_skel = Some sched /\
+                exists k, In (k, None) (t_log (trun before_flush_skel cex_reqs (tinit cex_reqs [[0%nat]] 1) sched)).
+Proof.
+  split; [reflexivity|].
+  destruct (find_cex before_flush_skel) as [sched|] eqn:E; [|vm_compute in E; discriminate].
+  exists sched. split; [reflexivity|]. now apply find_cex_sound.
+Qed.
+
 Print Assumptions c04_generic.
+Print Assumptions c04_before_flush_refuted.
 Print Assumptions c04_generic_in_flight.
 Print Assumptions c04_generic_none_lost.
 Print Assumptions c04_generic_no_race.
